@@ -211,3 +211,131 @@ func shortFile(f string) string {
 	}
 	return f
 }
+
+// idWriters: the cancellation ids have a closed set of writers, which is what lets every other
+// function be treated as preserving them.
+func (r *Run) idWriters() {
+	p := r.L.ByName["interp"]
+	allowed := map[string]map[string]bool{
+		"frame.id":       {"newFrame": true, "frame.clone": true, "frame.setrunid": true},
+		"Interpreter.id": {"Interpreter.stop": true},
+	}
+	bad := map[string][]string{}
+	for fn, fd := range r.L.decls {
+		if r.L.declPkg[fn] != p || fd.Body == nil {
+			continue
+		}
+		name := fn.Name()
+		if sig := fn.Type().(*types.Signature); sig.Recv() != nil {
+			name = typeNameShort(sig.Recv().Type()) + "." + name
+		}
+		note := func(owner, field string, pos token.Pos) {
+			k := owner + "." + field
+			if allowed[k] != nil && !allowed[k][name] {
+				bad[k] = append(bad[k], fmt.Sprintf("%s (%s:%d)", name, shortFile(r.L.Fset.Position(pos).Filename), r.L.Fset.Position(pos).Line))
+			}
+		}
+		fieldOf := func(e ast.Expr) (string, string, bool) {
+			se, ok := unparen(e).(*ast.SelectorExpr)
+			if !ok {
+				return "", "", false
+			}
+			sel, ok := p.TypesInfo.Selections[se]
+			if !ok || sel.Kind() != types.FieldVal {
+				return "", "", false
+			}
+			return typeNameShort(sel.Recv()), se.Sel.Name, true
+		}
+		ast.Inspect(fd.Body, func(n ast.Node) bool {
+			switch n := n.(type) {
+			case *ast.AssignStmt:
+				for _, l := range n.Lhs {
+					if o, f, ok := fieldOf(l); ok {
+						note(o, f, l.Pos())
+					}
+				}
+			case *ast.IncDecStmt:
+				if o, f, ok := fieldOf(n.X); ok {
+					note(o, f, n.Pos())
+				}
+			case *ast.UnaryExpr:
+				if n.Op == token.AND {
+					if o, f, ok := fieldOf(n.X); ok && f == "id" {
+						// address taken: only inside atomic.Load* is a read
+						note(o, f+"(&)", n.Pos())
+					}
+				}
+			case *ast.CompositeLit:
+				if t := p.TypesInfo.TypeOf(n); t != nil {
+					if nt, ok := t.(*types.Named); ok {
+						for _, el := range n.Elts {
+							if kv, ok := el.(*ast.KeyValueExpr); ok {
+								if id, ok := kv.Key.(*ast.Ident); ok && id.Name == "id" {
+									note(nt.Obj().Name(), "id", kv.Pos())
+								}
+							}
+						}
+					}
+				}
+			case *ast.CallExpr:
+				// atomic.LoadUint64(&x.id) is a read: skip its argument
+				if fnc := calleeNameOf(p, n); strings.HasPrefix(fnc, "atomic.Load") {
+					return false
+				}
+				if fnc := calleeNameOf(p, n); strings.HasPrefix(fnc, "atomic.Store") || strings.HasPrefix(fnc, "atomic.Add") {
+					if u, ok := unparen(n.Args[0]).(*ast.UnaryExpr); ok {
+						if o, f, ok := fieldOf(u.X); ok {
+							note(o, f, n.Pos())
+						}
+					}
+					return false
+				}
+			}
+			return true
+		})
+	}
+	for _, k := range []string{"frame.id", "Interpreter.id"} {
+		var al []string
+		for a := range allowed[k] {
+			al = append(al, a)
+		}
+		sort.Strings(al)
+		r.frameObl("interp/writers["+k+"]", k+" is written only by "+strings.Join(al, ", "), len(bad[k]) == 0, strings.Join(bad[k], "; "))
+	}
+	// setrunid is applied only by Execute, and only to the root frame
+	var callers []string
+	for fn, fd := range r.L.decls {
+		if r.L.declPkg[fn] != p || fd.Body == nil {
+			continue
+		}
+		ast.Inspect(fd.Body, func(n ast.Node) bool {
+			if c, ok := n.(*ast.CallExpr); ok && calleeNameOf(p, c) == "interp.frame.setrunid" {
+				callers = append(callers, fn.Name()+":"+types.ExprString(c))
+			}
+			return true
+		})
+	}
+	sort.Strings(callers)
+	okc := len(callers) == 1 && callers[0] == "Execute:interp.frame.setrunid(interp.runid())"
+	r.frameObl("interp/callers[frame.setrunid]", "setrunid is applied exactly once, by Execute, to the root frame with the current run id", okc, strings.Join(callers, "; "))
+}
+
+func calleeNameOf(p *packages.Package, c *ast.CallExpr) string {
+	switch f := unparen(c.Fun).(type) {
+	case *ast.Ident:
+		if fn, ok := p.TypesInfo.ObjectOf(f).(*types.Func); ok {
+			return calleeName(fn)
+		}
+	case *ast.SelectorExpr:
+		if sel, ok := p.TypesInfo.Selections[f]; ok {
+			if fn, ok := sel.Obj().(*types.Func); ok {
+				return calleeName(fn)
+			}
+			return ""
+		}
+		if fn, ok := p.TypesInfo.ObjectOf(f.Sel).(*types.Func); ok {
+			return calleeName(fn)
+		}
+	}
+	return ""
+}
